@@ -50,6 +50,28 @@ def subst(text, mapping=None):
     return PH.sub(lambda m: mapping.get((m.group(1), m.group(2)), m.group(2)), text)
 
 
+def render_with_boundaries(block, indent=0, lines=None, bounds=None):
+    """Rendered lines plus the line indexes at which a statement of some body starts or a body ends
+    (every statement boundary, at every nesting level)."""
+    if lines is None:
+        lines, bounds = [], []
+    for s in block:
+        bounds.append(len(lines))
+        if isinstance(s, Simple):
+            lines += s.lines(indent)
+        else:
+            lines.append(("  " * indent) + s.header)
+            for i, b in enumerate(s.bodies):
+                render_with_boundaries(b, indent + 1, lines, bounds)
+                bounds.append(len(lines))
+                if i < len(s.mids):
+                    lines.append(("  " * indent) + s.mids[i])
+            lines.append(("  " * indent) + s.footer)
+    if indent == 0:
+        bounds.append(len(lines))
+    return lines, bounds
+
+
 def render(block, mapping=None):
     return subst("\n".join(render_block(block)) + "\n", mapping)
 
@@ -97,7 +119,9 @@ class Gen:
         if x < 0.9 and self.methods:
             name, ar = r.choice(self.methods)
             return "<m:%s>(%s)" % (name, ", ".join(self.lit() for _ in range(ar)))
-        return r.choice(['"s".upcase', "[1, 2].first", '"abc".size', "1.to_s", "[1, 2].size", ":a.to_s"])
+        if x < 0.94 and self.vars:
+            return '<v:%s>["key"]' % r.choice(self.vars)
+        return r.choice(['"s".upcase', "[1, 2].first", '"abc".upcase', "1.to_s", "[1, 2].first", ":a.to_s"])
 
     def assign(self):
         v = self.fresh("v", "x")
